@@ -250,6 +250,14 @@ async fn exec<const N: usize>(st: &mut St<N>, ctx: &mut Ctx, toks: &[&str]) {
             Ok(()) => ctx.emit("open ok"),
             Err(e) => ctx.emit(format!("open Err {}", err_class(&e))),
         },
+        ("know", [len, seed]) => {
+            // register a payload written by an earlier process so that reads can name it
+            let len: usize = len.parse().unwrap();
+            let seed: u64 = seed.parse().unwrap();
+            let data = gen_data(seed, len);
+            st.written.insert((len, crc32c(&data)), seed);
+            ctx.emit("know");
+        }
         ("W", [key, ts, meta, len, seed]) => {
             let s = need_storage!(st, ctx, "W");
             let len: usize = len.parse().unwrap();
@@ -622,7 +630,8 @@ pub fn run_script<const N: usize>(script: &str) -> String {
         pearl::verif_io::stop_recording();
         let _ = pearl::verif_io::take_events();
     }
-    let mut ctx = Ctx { out: String::new(), blooms: HashMap::new(), raws: HashMap::new() };
+    let live = crate::LIVE_PATH.lock().unwrap().clone().and_then(|p| std::fs::File::create(p).ok());
+    let mut ctx = Ctx { out: String::new(), blooms: HashMap::new(), raws: HashMap::new(), live };
     let mut st = St::<N> { cfg, dir: dir.clone(), storage: None, written: HashMap::new(), auto_quiesce: true, snaps: HashMap::new(), eof: HashMap::new() };
     rt.block_on(async {
         for line in script.lines() {
